@@ -134,21 +134,28 @@ pub struct SemCase {
     pub cfg: Cfg,
     /// closed blobs that are waiting for their dump when the permit is released
     pub blobs: u8,
-    /// 0 try_close_active_blob + create, 1 close_active_blob_in_background + create, 2 rotation by overflow of an aged blob
+    /// 0 try_close_active_blob + create, 1 close_active_blob_in_background + create, 2 rotation by overflow of an aged blob,
+    /// 3 deletion markers into every closed (and already dumped) blob: several re-dumps are pending in ONE dump pass that
+    ///   starts while the permit is held
     pub how: u8,
     pub hold_ms: u16,
 }
 
 fn sem_cases(thorough: bool) -> Vec<SemCase> {
     let mut v = vec![];
-    for how in 0..3u8 {
+    for how in 0..4u8 {
         for hold_ms in if thorough { vec![0u16, 50, 150, 250, 400, 900] } else { vec![0u16, 300, 600] } {
             for blobs in if thorough { vec![1u8, 2, 4] } else { vec![1u8, 3] } {
                 for rt_workers in [2usize, 0] {
                     if !thorough && rt_workers == 0 && hold_ms == 0 {
                         continue;
                     }
-                    v.push(SemCase { cfg: Cfg { keylen: 8, rt_workers, allow_dup: true, defer_ms: (2, 5), max_data_in_blob: 4, ..Cfg::default() }, blobs, how, hold_ms });
+                    if how == 3 && blobs < 2 {
+                        continue;
+                    }
+                    // how 3: the deferred dump must not start before all markers are written (it holds the blob list while it waits)
+                    let defer_ms = if how == 3 { (150, 300) } else { (2, 5) };
+                    v.push(SemCase { cfg: Cfg { keylen: 8, rt_workers, allow_dup: true, defer_ms, max_data_in_blob: 4, ..Cfg::default() }, blobs, how, hold_ms });
                 }
             }
         }
@@ -165,6 +172,8 @@ pub fn run_sem(c: &SemCase, dir: &Path, _findings: &Findings) -> Result<CaseOut,
         if c.how != 2 {
             cfg.max_data_in_blob = 1 << 30;
         }
+        // how 3 prepares `blobs` closed blobs first (the loop below makes blobs - 1 of them)
+        let prepared = if c.how == 3 { c.blobs + 1 } else { c.blobs };
         let s = match sut::open_sem(&cfg, dir, false, Some(sem.clone())).await {
             Ok(s) => s,
             Err(e) => return fail("init/err", format!("{:#}", e), 0, "init"),
@@ -185,7 +194,7 @@ pub fn run_sem(c: &SemCase, dir: &Path, _findings: &Findings) -> Result<CaseOut,
             tokio::time::sleep(Duration::from_millis(230)).await;
         }
         // earlier blobs are closed and dumped while the semaphore is free
-        for b in 1..c.blobs {
+        for b in 1..prepared {
             for k in 0..3u8 {
                 let (kb, val, ts) = put(k);
                 if let Err(e) = s.write(&kb, val, ts, None).await {
@@ -210,6 +219,17 @@ pub fn run_sem(c: &SemCase, dir: &Path, _findings: &Findings) -> Result<CaseOut,
         // storage's read lock), so the harness issues nothing that needs the write lock until the release
         let permit = sem.clone().acquire_owned().await.expect("semaphore");
         match c.how {
+            3 => {
+                // one marker into every closed blob (keys 0..2 live in each of them): their indexes are loaded back and one
+                // deferred dump pass has to write them all again
+                for k in 0..3u8 {
+                    if let Err(e) = s.delete(&key_bytes(keylen, k), 1_000_000, None, true).await {
+                        return fail("delete/err", format!("{:#}", e), 0, "delete");
+                    }
+                }
+                // let the deferred dump start and run into the held semaphore
+                tokio::time::sleep(Duration::from_millis(320)).await;
+            }
             0 | 1 => {
                 for k in 0..3u8 {
                     let (kb, val, ts) = put(k);
@@ -267,7 +287,7 @@ pub fn run_sem(c: &SemCase, dir: &Path, _findings: &Findings) -> Result<CaseOut,
 }
 
 fn sample_sem(c: &SemCase) -> Value {
-    json!({"rt_workers": c.cfg.rt_workers, "closed_blobs_waiting": c.blobs, "how(0 try_close,1 bg close,2 overflow rotation)": c.how, "permit_held_ms": c.hold_ms})
+    json!({"rt_workers": c.cfg.rt_workers, "closed_blobs_waiting": c.blobs, "how(0 try_close,1 bg close,2 overflow rotation,3 markers into all closed blobs)": c.how, "permit_held_ms": c.hold_ms})
 }
 
 pub fn run_live(c: &Case, dir: &Path, _findings: &Findings) -> Result<CaseOut, Failure> {
@@ -409,7 +429,7 @@ pub fn run(ctx: &RunCtx) -> PropResult {
     PropResult {
         report,
         level: "exploration",
-        rule: "proptest sequences over all public calls (create_/close_/restore_active_blob_in_background in every active-blob state, try_* variants, force_update with four predicates plus a slow one (8 ms, longer than the deferred-dump times; spliced as delete - slow predicate - delete so that the worker is late for a pending deferred dump while the next deferring request is already queued), data ops, offload, fsync, free, restarts) with a record limit of 3-11 or a byte limit of a few hundred bytes and 2-5 ms deferred dumps; then the probe: make sure an active blob exists, wait 230 ms (the rotation debounce is 200 ms of blob age), write limit+1 records, wait until the background machinery is idle (H3 probe). Oracle at idle: the worker task is alive, next_blob_id and blobs_count advanced (a switch happened), every non-empty closed blob has an index file with the written flag and its current blob size (requested dumps completed), close() returns Ok. Idle means nothing is pending, so a missing switch is definite, not a timing guess. An enumerated phase (live-dumpsem) gives the storage a caller-owned one-permit dump semaphore (Builder::set_dump_sem), lets 'another storage' hold the permit for 0-900 ms while 1-4 blobs are closed (try_close, background close, or rotation by overflow) and requires every requested dump to have happened at idle after the release, and the permit to be back. Non-trivial = the sequence contains a background request that could not apply in its state (live); the permit was held for >= 250 ms (live-dumpsem). distinct = FNV hash of the serialized case.".into(),
+        rule: "proptest sequences over all public calls (create_/close_/restore_active_blob_in_background in every active-blob state, try_* variants, force_update with four predicates plus a slow one (8 ms, longer than the deferred-dump times; spliced as delete - slow predicate - delete so that the worker is late for a pending deferred dump while the next deferring request is already queued), data ops, offload, fsync, free, restarts) with a record limit of 3-11 or a byte limit of a few hundred bytes and 2-5 ms deferred dumps; then the probe: make sure an active blob exists, wait 230 ms (the rotation debounce is 200 ms of blob age), write limit+1 records, wait until the background machinery is idle (H3 probe). Oracle at idle: the worker task is alive, next_blob_id and blobs_count advanced (a switch happened), every non-empty closed blob has an index file with the written flag and its current blob size (requested dumps completed), close() returns Ok. Idle means nothing is pending, so a missing switch is definite, not a timing guess. An enumerated phase (live-dumpsem) gives the storage a caller-owned one-permit dump semaphore (Builder::set_dump_sem), lets 'another storage' hold the permit for 0-900 ms while a blob is closed (try_close, background close, or rotation by overflow) or while deletion markers make several closed blobs wait for one re-dump pass and requires every requested dump to have happened at idle after the release, and the permit to be back. Non-trivial = the sequence contains a background request that could not apply in its state (live); the permit was held for >= 250 ms (live-dumpsem). distinct = FNV hash of the serialized case.".into(),
         assumptions: {
             let mut a = common_assumptions();
             a.push("a close() that does not return within 120 s ends the run as inconclusive (exit 2), never as a violation".into());
